@@ -110,4 +110,9 @@ theorem nv_admissible_forward :
   · refine ⟨⟨rfl, rfl, 600, ?_, by decide⟩, by rw [h2]; simp, by rw [h2]; simp, rfl, Nat.le_refl _, rfl, by decide, rfl⟩
     exact Reach.access ⟨0, 100, 80⟩ (by decide)
 
+/-- ... and of `calculateAllNodes_no_exception` -/
+theorem nv_nonneg : NonnegArr nvDs := by
+  have h1 : nvDs.conns = [⟨0, 1, 1000, 1300, 5, 1, true, true, -1⟩] := by decide
+  intro c hc; rw [h1] at hc; simp at hc; subst hc; decide
+
 end Tr
